@@ -6,7 +6,7 @@
     claim is the Go oracle: bitwise-equal repeated searches — which found and led to the repair of
     the BM25 summation order, /repo e48ad27).  binary64 rounding is not modelled: see NOTES.md. *)
 From Coq Require Import QArith Sorting.Sorted Sorting.Permutation.
-From ZV Require Import Lib.Base Generated.ScoreConsts Model.Score Proofs.Score.
+From ZV Require Import Lib.Base Generated.ScoreConsts Model.Score Proofs.Score Model.ScoreBM25 Proofs.ScoreBM25.
 Open Scope Q_scope.
 
 (** ---- 1. Debug scoring never changes a score or an order: the whole ranking (file order, file
@@ -46,6 +46,11 @@ Theorem C29_files_sorted_except_promotion : forall ms : list sfile,
 Proof. exact sort_files_shape. Qed.
 Print Assumptions C29_files_sorted_except_promotion.
 
+(** the documented constants: third place (index 2), score ratio 0.9 *)
+Theorem C29_promotion_is_documented_one : c_boostOffset = 2%nat /\ c_minScoreRatio == 9 # 10.
+Proof. split; reflexivity. Qed.
+Print Assumptions C29_promotion_is_documented_one.
+
 (** consequence: non-increasing everywhere once the file in third place is taken out *)
 Theorem C29_files_sorted_but_one : forall ms : list sfile,
   StronglySorted (fun a b => sf_score b <= sf_score a) (sort_files ms) \/
@@ -83,7 +88,25 @@ Proof.
 Qed.
 Print Assumptions C29_bounded_is_finite.
 
+(** ---- 5. BM25 (tfScore, the sum over the term frequencies, boostScore; term-frequency extraction is
+    not modelled): every term contributes a value in [0, k+1], so with a line/file length ratio L >= 0,
+    non-negative term frequencies and boost weights <= W the score lies in [0, (k+1) * #terms * W]:
+    finite.  In exact arithmetic the order of the terms is irrelevant — the run-to-run differences
+    of the implementation (repaired in /repo e48ad27) were binary64 non-associativity only. *)
+Theorem C29_bm25_bounded : forall L tfs ws W,
+  0 <= L -> Forall (fun f => (0 <= f)%Z) tfs -> 1 <= W -> Forall (fun w => w <= W) ws ->
+  0 <= bm25_score L tfs ws <= (c_bm25_k + 1) * inject_Z (Z.of_nat (length tfs)) * W.
+Proof. exact bm25_score_bounds. Qed.
+Print Assumptions C29_bm25_bounded.
+
+Theorem C29_bm25_term_order_irrelevant : forall L tfs tfs',
+  Permutation tfs tfs' -> bm25_sum L tfs == bm25_sum L tfs'.
+Proof. exact bm25_sum_perm. Qed.
+Print Assumptions C29_bm25_term_order_irrelevant.
+
 (** ---- non-vacuity *)
+Example ex_bm25 : bm25_score (3 # 2) [5; 1; 2]%Z [1; 2] == 3797376 # 514577 /\ Permutation [5; 1; 2]%Z [2; 5; 1]%Z.
+Proof. split; [vm_compute; reflexivity|]. apply Permutation_sym. apply (Permutation_cons_app [5;1]%Z []%Z). reflexivity. Qed.
 Definition ex_cand_word : cand := {| c_sb := true; c_eb := true; c_kind := KNone; c_weight := 1 |}.
 Definition ex_cand_sym : cand := {| c_sb := true; c_eb := true; c_kind := KSym true true (Some 700); c_weight := 2 |}.
 Definition ex_fin (doc : Z) (ms : list (list (Z * list cand))) : fin :=
